@@ -92,6 +92,9 @@ where
                 }
                 crate::sut::write_tree(&root, &files);
                 for (li, (lang, cfg)) in g.langs.iter().enumerate() {
+                    if cfg.no_header {
+                        continue; // the binary has no switch for it
+                    }
                     let cfgp = root.join(format!("cfg-{}.toml", lang.name()));
                     std::fs::write(&cfgp, crate::sut::config_toml(*lang, cfg)).unwrap();
                     let out = if g.multi { root.join(format!("out-{}", lang.name())) } else { root.join(format!("out-{}.{}", lang.name(), lang.ext())) };
